@@ -346,7 +346,10 @@ def _variants():
         V("last-skew-target-top", replace_expr(CO, "last_skew_component", "set(range(i))", "set(range(n - i, n))"), "fire", "C19-V1"),
         V("last-sum-suffix-from-left", replace_expr(CO, "last_sum_component", "perm[n - i]", "perm[i - 1]"), "fire", "C19-V1"),
         V("rucu-extension-sumind", replace_expr(CO, "RuCuCoreStrategy.is_valid_extension", "zero_plus_skewind(patt)", "zero_plus_sumind(patt)"), "fire", "C19-V2"),
-        V("rdcu-extension-drops-sumind", replace_expr(CO, "RdCuCoreStrategy.is_valid_extension", "zero_plus_skewind(patt) and zero_plus_sumind(bstrip(patt))", "zero_plus_skewind(patt)"), "fire", "C19-V2"),
+        V("rdcu-extension-drops-sumind", replace_expr(CO, "RdCuCoreStrategy.is_valid_extension", "len(patt) > 1 and zero_plus_skewind(patt) and zero_plus_sumind(bstrip(patt))", "len(patt) > 1 and zero_plus_skewind(patt)"), "fire", "C19-V2"),
+        V("rdcdcu-length-guard-dropped", replace_expr(CO, "RdCdCuCoreStrategy.is_valid_extension", "len(patt) > 1 and zero_plus_sumind(bstrip(patt))", "zero_plus_sumind(bstrip(patt))"), "fire", "C19-E1", "the original defect"),
+        V("rd2134-length-guard-dropped", replace_stmt(CO, "Rd2134CoreStrategy.is_valid_extension", "if len(patt) == 1: ...", ""), "fire", "C19-E1", "the original defect"),
+        V("rdcdcu-length-guard-as-statement", replace_stmt(CO, "RdCdCuCoreStrategy.is_valid_extension", "return len(patt) > 1 and zero_plus_sumind(bstrip(patt))", "if len(patt) < 2:\n    return False\nreturn zero_plus_sumind(bstrip(patt))"), "nofire"),
         V("rdcdcu-extension-unstripped", replace_expr(CO, "RdCdCuCoreStrategy.is_valid_extension", "zero_plus_sumind(bstrip(patt))", "zero_plus_sumind(patt)"), "fire", "C19-V2"),
         V("ru2143-last-component-sum", replace_expr(CO, "Ru2143CoreStrategy.is_valid_extension", "last_skew_component(patt)", "last_sum_component(patt)"), "fire", "C19-V2"),
         V("rd2134-single-point-dropped", replace_expr(CO, "Rd2134CoreStrategy.is_valid_extension", "last_comp not in Rd2134CoreStrategy._NON_INC or len(last_comp) == 1", "last_comp not in Rd2134CoreStrategy._NON_INC"), "fire", "C19-V2"),
@@ -576,11 +579,12 @@ EXTENSION_SPECS = {
     "RdCdCoreStrategy": ["return zero_plus_sumind(a0)"],
     "RuCuRdCdCoreStrategy": ["return zero_plus_perm(a0)"],
     "RuCuCdCoreStrategy": ["return zero_plus_skewind(a0)"],
-    "RdCdCuCoreStrategy": ["return zero_plus_sumind(bstrip(a0))"],
-    "RdCuCoreStrategy": ["return zero_plus_skewind(a0) and zero_plus_sumind(bstrip(a0))"],
+    # a pattern of length one is never of the prescribed form (fix dc4594f: the stripped pattern would be empty)
+    "RdCdCuCoreStrategy": ["return len(a0) > 1 and zero_plus_sumind(bstrip(a0))"],
+    "RdCuCoreStrategy": ["return len(a0) > 1 and zero_plus_skewind(a0) and zero_plus_sumind(bstrip(a0))"],
     # {M} / {C}: any spelling (class attribute or module constant) of the mesh pattern / monotone class given in CLASS_CONSTANTS
-    "Rd2134CoreStrategy": ["return a0[0] == 0 and fstrip(a0).avoids({M}) and (last_sum_component(fstrip(a0)) not in {C} or len(last_sum_component(fstrip(a0))) == 1)"],
-    "Ru2143CoreStrategy": ["return a0[0] == 0 and fstrip(a0).avoids({M}) and last_skew_component(fstrip(a0)) not in {C}"],
+    "Rd2134CoreStrategy": ["return len(a0) != 1 and a0[0] == 0 and fstrip(a0).avoids({M}) and (last_sum_component(fstrip(a0)) not in {C} or len(last_sum_component(fstrip(a0))) == 1)"],
+    "Ru2143CoreStrategy": ["return len(a0) != 1 and a0[0] == 0 and fstrip(a0).avoids({M}) and last_skew_component(fstrip(a0)) not in {C}"],
 }
 SPEC_SLOTS = {"Rd2134CoreStrategy": {"M": "_M_PATT", "C": "_NON_INC"}, "Ru2143CoreStrategy": {"M": "_M_PATT", "C": "_NON_DEC"}}
 _M_SHADING = frozenset([(0, 1), (0, 2), (1, 0), (1, 1), (1, 2), (2, 1), (2, 2)])
@@ -744,3 +748,84 @@ def run(ctx: Ctx) -> None:  # noqa: F811
 
 
 FLOORS["C19-V2"] = 20
+FLOORS["C19-E1"] = 4
+
+
+# ------------------------------------------------------------------ E1: the shape helpers are total on what the strategies hand them
+#
+# find_strategies must *report* for every basis; an AssertionError out of a shape helper is not a report.  The helpers of
+# core_strategies.py state their precondition as `assert len(perm) > 0`.  fstrip / bstrip drop one entry, so their result is
+# empty for a pattern of length one (a basis may contain Perm((0,))).  Rule: a value that may be empty (the result of a
+# stripping helper) does not reach a helper that asserts non-emptiness unless the call is guarded by a length test.
+
+
+def _asserts_nonempty(fi: FuncInfo) -> bool:
+    if not fi.params:
+        return False
+    p = fi.params[0]
+    for st in fi.body[:2]:
+        if isinstance(st, ast.Assert) and unparse(st.test) in (f"0 < len({p})", f"len({p}) != 0", f"1 <= len({p})", p, f"len({p})"):
+            return True
+    return False
+
+
+def _may_return_empty(fi: FuncInfo) -> bool:
+    """some return hands back the parameter with one entry sliced off"""
+    if not fi.params:
+        return False
+    p = fi.params[0]
+    for n in walk_no_nested(fi.node):
+        if isinstance(n, ast.Return) and n.value is not None:
+            for s in ast.walk(n.value):
+                if isinstance(s, ast.Subscript) and isinstance(s.slice, ast.Slice) and unparse(s.value) == p and (s.slice.lower is not None or s.slice.upper is not None):
+                    return True
+    return False
+
+
+def rule_e1(ctx: Ctx) -> None:
+    mod = ctx.repo.module("permuta.enumeration_strategies.core_strategies")
+    needs = {name for name, fi in mod.functions.items() if _asserts_nonempty(fi)}
+    strips = {name for name, fi in mod.functions.items() if _may_return_empty(fi) and name in needs}
+    if not needs or not strips:
+        raise AnalysisError("C19-E1: no helper with a non-emptiness precondition / no stripping helper found in core_strategies.py")
+    n = 0
+    for fi in ctx.repo.all_funcs():
+        if fi.module is not mod or fi.name != "is_valid_extension":
+            continue
+        patt = fi.params[0] if fi.params else None
+        # names bound to the result of a stripping helper (also a rebound parameter)
+        stripped_names = {}
+        for st in walk_no_nested(fi.node):
+            if isinstance(st, ast.Assign) and len(st.targets) == 1 and isinstance(st.targets[0], ast.Name) and isinstance(st.value, ast.Call) and call_name(st.value) and call_name(st.value)[-1] in strips:
+                stripped_names[st.targets[0].id] = st
+        parents = {c: p for p in ast.walk(fi.node) for c in ast.iter_child_nodes(p)}
+        guard_texts = [unparse(t) for t in ast.walk(fi.node) if isinstance(t, ast.Compare) and f"len({patt})" in unparse(t)]
+        long_enough = any(g in (f"1 < len({patt})", f"2 <= len({patt})", f"len({patt}) != 1", f"1 != len({patt})") for g in guard_texts) or \
+            any(isinstance(s, ast.If) and s.body and isinstance(s.body[-1], ast.Return)
+                and any(unparse(t) in (f"len({patt}) == 1", f"1 == len({patt})", f"len({patt}) < 2", f"len({patt}) <= 1")
+                        for t in (s.test.values if isinstance(s.test, ast.BoolOp) and isinstance(s.test.op, ast.Or) else [s.test]))
+                for s in fi.body)
+        for call in [c for c in walk_no_nested(fi.node) if isinstance(c, ast.Call) and call_name(c) and call_name(c)[-1] in needs and c.args]:
+            a = c_arg = call.args[0]
+            maybe_empty = (isinstance(a, ast.Call) and call_name(a) and call_name(a)[-1] in strips) or (isinstance(a, ast.Name) and a.id in stripped_names and stripped_names[a.id].lineno < call.lineno)
+            if not maybe_empty:
+                continue
+            n += 1
+            if long_enough:
+                ctx.ok("C19-E1", fi.where, f"`{unparse(call)[:50]}`: the stripped pattern is non-empty (length of `{patt}` tested first)", call, fi)
+            elif guard_texts:
+                raise AnalysisError(f"{fi.where}: `{unparse(call)[:50]}` follows a length test ({guard_texts[0]}) that is not recognised as excluding patterns of length one")
+            else:
+                ctx.violation("C19-E1", fi, call, f"`{unparse(call)[:60]}`: `{call_name(call)[-1]}` asserts a non-empty argument, but the stripped pattern is empty for a basis element of length one "
+                              f"(Perm((0,))): find_strategies raises AssertionError instead of reporting", robust=True, tag=f"{call_name(call)[-1]}-of-stripped")
+            _ = c_arg
+    if n == 0:
+        ctx.ok("C19-E1", mod.name, "no stripped pattern is handed to a helper with a non-emptiness precondition")
+
+
+_RUN_BEFORE_E1 = run
+
+
+def run(ctx: Ctx) -> None:  # noqa: F811
+    _RUN_BEFORE_E1(ctx)
+    ctx.run(rule_e1, ctx)
